@@ -202,9 +202,15 @@ class Compiler:
             try:
                 return get_as_int(state, "link address", state["insn"], address, bitness=16, unsigned=False)
             except DeferredCycle:
+                try:
+                    equal_to = repr(address.resolve(state))
+                except DeferredCycle:
+                    # The dependency goes through a non-linear operator, so
+                    # there is no closed form to show
+                    equal_to = repr(address)
                 reports.error(
                     "recursive-definition",
-                    (state["insn"].ctx_start, state["insn"].ctx_end, f"The link base is mathematically equal to {address.resolve(state)!r},\nwhere LA denotes link base. In other words, the link base depends on itself,\nand thus cannot be determined.")
+                    (state["insn"].ctx_start, state["insn"].ctx_end, f"The link base is mathematically equal to {equal_to},\nwhere LA denotes link base. In other words, the link base depends on itself,\nand thus cannot be determined.")
                 )
                 return 0
 
